@@ -7,7 +7,6 @@ use lean_string::{LeanString, ToLeanString};
 use std::borrow::Cow;
 use std::fmt::{self, Write as _};
 use std::panic::{AssertUnwindSafe, catch_unwind};
-use std::sync::OnceLock;
 
 pub const NSLOTS: usize = 8;
 pub const RESERVE_MSG: &str = "Cannot allocate memory to hold LeanString";
@@ -48,10 +47,15 @@ pub struct Statics {
     pub pristine: Vec<String>,
 }
 
-static STATICS: OnceLock<Statics> = OnceLock::new();
+static STATICS: std::sync::Mutex<Option<Statics>> = std::sync::Mutex::new(None);
+pub const BASE_STATICS: usize = 9;
 
-pub fn statics() -> &'static Statics {
-    STATICS.get_or_init(|| {
+fn with_statics<R>(f: impl FnOnce(&mut Statics) -> R) -> R {
+    let mut g = match STATICS.lock() {
+        Ok(g) => g,
+        Err(p) => p.into_inner(),
+    };
+    if g.is_none() {
         let src: Vec<String> = vec![
             "short".into(),
             "exactly16bytes!!".into(),
@@ -70,26 +74,56 @@ pub fn statics() -> &'static Statics {
             },
             "0123456789abcdeé€".into(),
         ];
-        let mut texts = Vec::new();
-        let mut pristine = Vec::new();
+        let mut st = Statics { texts: Vec::new(), pristine: Vec::new() };
         for s in src {
-            pristine.push(s.clone());
+            st.pristine.push(s.clone());
             let leaked: &'static mut str = Box::leak(s.into_boxed_str());
-            texts.push(&*leaked);
+            st.texts.push(&*leaked);
         }
-        Statics { texts, pristine }
+        *g = Some(st);
+    }
+    f(g.as_mut().unwrap())
+}
+
+pub fn init_statics() {
+    with_statics(|_| ());
+}
+pub fn static_text(id: usize) -> &'static str {
+    with_statics(|s| s.texts[id])
+}
+pub fn static_pristine(id: usize) -> String {
+    with_statics(|s| s.pristine[id].clone())
+}
+pub fn static_len(id: usize) -> usize {
+    with_statics(|s| s.pristine[id].len())
+}
+/// Leaks `text` into writable memory and registers it as a harness-owned 'static text.
+pub fn register_static(text: &str) -> usize {
+    with_statics(|s| {
+        if let Some(i) = s.pristine.iter().position(|p| p == text) {
+            return i;
+        }
+        s.pristine.push(text.to_string());
+        let leaked: &'static mut str = Box::leak(text.to_string().into_boxed_str());
+        s.texts.push(&*leaked);
+        s.texts.len() - 1
     })
 }
 
-/// index of the first static text whose bytes differ from the pristine copy
+/// index of the first (base or recently registered) static text whose bytes differ from the pristine copy
 pub fn statics_damaged() -> Option<usize> {
-    let st = statics();
-    for i in 0..st.texts.len() {
-        if st.texts[i].as_bytes() != st.pristine[i].as_bytes() {
-            return Some(i);
+    with_statics(|st| {
+        let n = st.texts.len();
+        for i in (0..BASE_STATICS.min(n)).chain(n.saturating_sub(3).max(BASE_STATICS)..n) {
+            if st.texts[i].as_bytes() != st.pristine[i].as_bytes() {
+                return Some(i);
+            }
         }
-    }
-    None
+        None
+    })
+}
+pub fn statics_damaged_all() -> Option<usize> {
+    with_statics(|st| (0..st.texts.len()).find(|&i| st.texts[i].as_bytes() != st.pristine[i].as_bytes()))
 }
 
 // ---------------------------------------------------------------------------------------------
@@ -695,7 +729,7 @@ pub fn apply_model(pool: &mut Pool, op: &Op) -> Out {
         | FromUtf8Unchecked { s, .. } => set(pool, s.clone(), None),
         FromChar { c, .. } => set(pool, c.to_string(), None),
         FromStatic { id, .. } => {
-            let txt = statics().pristine[*id].clone();
+            let txt = static_pristine(*id);
             set(pool, txt, Some(*id))
         }
         WithCap { .. } => set(pool, String::new(), None),
@@ -858,7 +892,7 @@ fn apply_real_inner(pool: &mut Pool, op: &Op, info: &mut StepInfo) -> Out {
             FromCowO { s, .. } => Ok(LeanString::from(Cow::<str>::Owned(s.clone()))),
             FromChar { c, .. } => Ok(LeanString::from(*c)),
             Parse { s, .. } => s.parse::<LeanString>().map_err(|_| Out::Err),
-            FromStatic { id, .. } => Ok(LeanString::from_static_str(statics().texts[*id])),
+            FromStatic { id, .. } => Ok(LeanString::from_static_str(static_text(*id))),
             WithCap { n, try_, .. } => {
                 if *try_ {
                     LeanString::try_with_capacity(*n).map_err(|_| Out::Err)
